@@ -6,7 +6,7 @@
    One scheduling step runs ONE thread for ONE step:  tstep t g th = Some (g', th')  when thread t, in local
    state th, can move (None = blocked or finished).  A step of thread t changes the global part and t's own
    local state only.  The number of threads is the length of the list: arbitrary. *)
-From Coq Require Import List Arith Bool ZArith.
+From Coq Require Import List Arith Bool ZArith Uint63.
 Import ListNotations.
 
 Inductive mode := R | W.
@@ -79,3 +79,36 @@ End TS.
 Arguments St {G T}.
 Arguments glob {G T}.
 Arguments thr {G T}.
+
+(* ------------------------------------------------------------------ compact encodings for the correspondence files
+   (thousands of small literals are slow to elaborate: schedules and traces are packed into 63-bit primitive integers) *)
+Open Scope Z_scope.
+(* every observed value becomes a base-64 digit 1..63 (value + 17, or 63 when out of range); 0 closes an observation *)
+Definition enc_digit (x : Z) : Z := if (Z.leb (-16) x && Z.ltb x 46)%bool then x + 17 else 63.
+Definition digits_of_trace (tr : list (list Z)) : list Z := concat (map (fun o => map enc_digit o ++ [0]) tr).
+(* pack 10 base-64 digits per word, first digit most significant; the last word is padded with zeros *)
+Fixpoint pack_word (n : nat) (acc : Z) (l : list Z) : Z * list Z :=
+  match n with
+  | O => (acc, l)
+  | S k => match l with
+           | [] => pack_word k (acc * 64) []
+           | x :: r => pack_word k (acc * 64 + x) r
+           end
+  end.
+Fixpoint pack (fuel : nat) (l : list Z) : list Z :=
+  match fuel with
+  | O => []
+  | S f => match l with
+           | [] => []
+           | _ => let '(w, r) := pack_word 10 0 l in w :: pack f r
+           end
+  end.
+Definition enc_trace (tr : list (list Z)) : list Z :=
+  let d := digits_of_trace tr in pack (S (List.length d)) d.
+(* schedule: words of 20 base-8 digits, least significant digit first *)
+Fixpoint unpack_word (n : nat) (z : Z) : list nat :=
+  match n with O => [] | S k => Z.to_nat (z mod 8) :: unpack_word k (z / 8) end.
+Definition decode_sched (n : nat) (ws : list Z) : list nat := firstn n (concat (map (unpack_word 20) ws)).
+Close Scope Z_scope.
+Fixpoint eqb_li (a b : list Uint63.int) : bool :=
+  match a, b with [], [] => true | x :: a', y :: b' => Uint63.eqb x y && eqb_li a' b' | _, _ => false end.
